@@ -227,8 +227,15 @@ def _assigned_ids(node):
 
 
 def _is_pointer(n):
-    t = (n.get('type') or '')
-    return t.strip().endswith('*')
+    t = (n.get('type') or '').strip()
+    while True:     # top-level qualifiers of the pointer itself: `const std::byte *const`
+        for q in ('const', 'volatile', '__restrict'):
+            if t.endswith(q):
+                t = t[:-len(q)].rstrip()
+                break
+        else:
+            break
+    return t.endswith('*')
 
 
 def _must_advance(stmts, pid):
@@ -383,25 +390,7 @@ Z_CODES = {'Z_OK': 0, 'Z_STREAM_END': 1, 'Z_NEED_DICT': 2, 'Z_ERRNO': -1, 'Z_STR
 def _zlib_status(prog, chk, D5, zu):
     """Evaluate one round of the decompression loop with the input exhausted
     (ptr == end, so avail_in = 0) for every inflate status code."""
-    outer = [n for n in children(zu.body) if n.get('kind') in ('DoStmt', 'WhileStmt', 'ForStmt')]
-    if len(outer) != 1:
-        raise AnalysisBroken('zlib_uncompress: expected one top-level loop, found %d' % len(outer))
-    outer = outer[0]
-    if outer['kind'] == 'DoStmt':
-        obody, ocond = children(outer)[0], children(outer)[1]
-    elif outer['kind'] == 'WhileStmt':
-        ocond, obody = children(outer)[0], children(outer)[-1]
-    else:
-        raise AnalysisBroken('zlib_uncompress: outer loop form not modelled')
-    # variables
-    vars_ = {x.get('name'): x for x in walk(zu.body) if x.get('kind') == 'VarDecl'}
-    for need in ('ptr', 'end', 'ret'):
-        if need not in vars_:
-            raise AnalysisBroken('zlib_uncompress: variable %s not found' % need)
-    strm = [x for x in walk(zu.body) if x.get('kind') == 'VarDecl' and 'z_stream' in (x.get('type') or '')]
-    if len(strm) != 1:
-        raise AnalysisBroken('zlib_uncompress: z_stream variable not found')
-    sid = strm[0]['id']
+    obody, ocond, vars_, sid, outer = zlib_loop(prog, zu)
     inflate_calls = [x for x in walk(obody) if x.get('kind') == 'CallExpr'
                      and (strip(children(x)[0]).get('referencedDecl') or {}).get('name') == 'inflate']
     if len(inflate_calls) != 1:
@@ -486,14 +475,108 @@ def zlib_loop(prog, zu):
         ocond, obody = children(outer)[0], children(outer)[-1]
     else:
         raise AnalysisBroken('zlib_uncompress: outer loop form not modelled')
-    vars_ = {x.get('name'): x for x in walk(zu.body) if x.get('kind') == 'VarDecl'}
-    for need in ('ptr', 'end', 'ret'):
-        if need not in vars_:
-            raise AnalysisBroken('zlib_uncompress: variable %s not found' % need)
     strm = [x for x in walk(zu.body) if x.get('kind') == 'VarDecl' and 'z_stream' in (x.get('type') or '')]
     if len(strm) != 1:
         raise AnalysisBroken('zlib_uncompress: z_stream variable not found')
+    vars_ = zlib_roles(zu, obody, strm[0]['id'], 'inflate')
     return obody, ocond, vars_, strm[0]['id'], outer
+
+
+def _callee_name(x):
+    c = children(x)
+    return (strip(c[0]).get('referencedDecl') or {}).get('name') if c else None
+
+
+def zlib_roles(fn, obody, sid, api):
+    """The locals of a (de)compression loop, found by what they do, not by what they are called:
+
+    ret  the variable that receives the value of the `api` call (inflate / deflate) in the loop;
+    ptr  the input cursor: the pointer local from which `strm.next_in` is computed;
+    end  the input limit: the other pointer local from which `strm.avail_in` is computed
+         (`end - ptr`, possibly through a named local, a ternary or std::min).
+
+    -> {'ptr': decl, 'end': decl, 'ret': decl} (the VarDecl / ParmVarDecl nodes)."""
+    decls = {p['id']: p for p in fn.params}
+    defs = {}           # local id -> expressions it is computed from
+    for x in walk(fn.body):
+        k = x.get('kind')
+        if k == 'VarDecl':
+            decls[x['id']] = x
+            init = [y for y in children(x) if not y['kind'].endswith('Attr')]
+            if init:
+                defs.setdefault(x['id'], []).append(init[-1])
+        elif k in ('BinaryOperator', 'CompoundAssignOperator') and (x.get('opcode') or '').endswith('=') \
+                and x.get('opcode') not in ('==', '!=', '<=', '>='):
+            l = strip(children(x)[0], explicit=True)
+            if l.get('kind') == 'DeclRefExpr':
+                defs.setdefault(l['referencedDecl']['id'], []).append(children(x)[1])
+
+    def pointer_roots(expr):
+        """ids of the pointer locals / parameters expr is computed from, through non-pointer locals"""
+        out, seen, todo = [], set(), [expr]
+        while todo:
+            e = todo.pop()
+            for y in walk(e):
+                if y.get('kind') != 'DeclRefExpr':
+                    continue
+                i = (y.get('referencedDecl') or {}).get('id')
+                if i not in decls or i == sid:
+                    continue
+                if _is_pointer(decls[i]):
+                    if i not in out:
+                        out.append(i)
+                elif i not in seen:
+                    seen.add(i)
+                    todo.extend(defs.get(i, []))
+        return out
+
+    def member_stores(name):
+        res = []
+        for x in walk(obody):
+            if x.get('kind') == 'BinaryOperator' and x.get('opcode') == '=':
+                l = strip(children(x)[0])
+                if l.get('kind') == 'MemberExpr' and l.get('name') == name and children(l):
+                    b = strip(children(l)[0])
+                    if b.get('kind') == 'DeclRefExpr' and (b.get('referencedDecl') or {}).get('id') == sid:
+                        res.append(children(x)[1])
+        return res
+
+    what = '%s: ' % fn.name
+    # ret
+    rets = []
+    for x in walk(obody):
+        k = x.get('kind')
+        if k == 'BinaryOperator' and x.get('opcode') == '=':
+            r = strip(children(x)[1], explicit=True)
+            l = strip(children(x)[0], explicit=True)
+            if r.get('kind') == 'CallExpr' and _callee_name(r) == api and l.get('kind') == 'DeclRefExpr':
+                rets.append(l['referencedDecl']['id'])
+        elif k == 'VarDecl':
+            init = [y for y in children(x) if not y['kind'].endswith('Attr')]
+            if init:
+                r = strip(init[-1], explicit=True)
+                if r.get('kind') == 'CallExpr' and _callee_name(r) == api:
+                    rets.append(x['id'])
+    if len(set(rets)) != 1 or rets[0] not in decls:
+        raise AnalysisBroken(what + 'the variable receiving the status of %s() was not found' % api)
+    # ptr
+    nxt = member_stores('next_in')
+    proots = []
+    for e in nxt:
+        for i in pointer_roots(e):
+            if i not in proots:
+                proots.append(i)
+    if len(proots) != 1:
+        raise AnalysisBroken(what + 'the input cursor (pointer stored to next_in in the loop) was not found')
+    # end
+    eroots = []
+    for e in member_stores('avail_in'):
+        for i in pointer_roots(e):
+            if i != proots[0] and i not in eroots:
+                eroots.append(i)
+    if len(eroots) != 1:
+        raise AnalysisBroken(what + 'the input limit (pointer from which avail_in is computed) was not found')
+    return {'ptr': decls[proots[0]], 'end': decls[eroots[0]], 'ret': decls[rets[0]]}
 
 
 def benign_buf_error(prog, chk, rid, zu, obody, ocond, vars_, sid, outer):
